@@ -147,7 +147,7 @@ ASSUMPTIONS = ["a stand-in prometheus_client (Counter/Gauge with labels/inc/dec 
                "retry_queue / throttle_queue are compared with the real structures (white-box, anchor-absent if renamed) and with the harness's own count"]
 BOUNDS_TEXT = {"quick": "7 executor kinds x histories of 4 operations from a menu of 5 x {quiesce, shutdown}; P=0", "thorough": "histories of 5 operations; P<=1"}
 MUST_REACH = {"*": ["future-metrics-checked", "retry-metrics-checked", "throttle-metrics-checked"]}
-BUDGET = {"quick": 150.0, "thorough": 1200.0}
+BUDGET = {"quick": 150.0, "thorough": 600.0}
 
 
 def plan(tier, seed):
